@@ -5,24 +5,25 @@ THEOREMS_TIED = ["Rustic.Props.C18.apply_changes_only_named", "Rustic.Props.C18.
 TRUSTED = [
     "hand-written model lean/Rustic/Model/Config.lean of commands/config.rs (ConfigOptions::apply, apply_config), commands/init.rs, repofile/configfile.rs getters, chunker/rabin.rs check_rabin_params, blob/packer.rs PackSizer, the limit arithmetic of commands/prune.rs decide_repack",
     "constants translator tools/constants/C18.py (configuration defaults, MAX_SIZE)",
-    "correspondence harness harness/src/c18.rs; hooks verif::chunker::{check_rabin_params,chunk_iter}, verif::packer::pack_size",
+    "correspondence harness harness/src/c18.rs; hooks verif::chunker::{check_rabin_params,chunk_iter}, verif::packer::pack_size, verif::prune::{plan_from_parts,take_limits} (decide_repack records the limits it computed)",
     "zstd::compression_level_range() = -131072..=22 of the linked zstd (hard-wired in the model, exercised by the apply channel)",
     "64-bit target: usize = u64",
 ]
 ASSUMPTIONS = [
-    "the prune limit arithmetic is tied to the code only by the smoke runs (ok vs panic over boundary limits), not value by value — it is inline in decide_repack",
+    "the prune limit arithmetic is tied value by value through the limits channel (planner driven from parts by the hook plan_from_parts, which repeats the `repack_uncompressed || repack_all` argument of from_prune_options); the real prune_plan path is covered by the smoke runs (no panic + the recorded limits satisfy the documented inequalities)",
+    "huge chunk sizes are exercised with small files (every file is one chunk); an allocation failure aborts the harness process and is reported as impl-crash with the op line, not as a panic observation",
     "smoke runs use small in-memory sources; `works` = backup, check --read-data, restore (ls+dump) equal to the source, forget, prune, check, restore",
 ]
 RULE = ("ops from harness/src/c18.rs (one splitmix64 PRNG, VERIF_SEED): apply = random stored config x random ConfigOptions, every field unset / boundary (0, 1, 63..65, 4095/4096, "
         "2^20, u32::MAX, 2^32, 2^63, u64::MAX, powers of two +-1) / interior / huge, half of them with consistent chunker parameters so that later validation steps are reached; "
         "rabin = parameter triples at the acceptance borders; getters/packsize = config getters and PackSizer::pack_size for total sizes 0..u64::MAX; seq = init + 1..5 "
-        "apply_config calls on an in-memory repository, re-opened after each; smoke = init with boundary options -> 2 backups -> check --read-data -> restore -> forget -> "
+        "apply_config calls on an in-memory repository, re-opened after each; limits = crafted index (1..5 packs, used/unused blob sizes up to u32::MAX per pack) x limit options x repack flags through the real planner, observation = the limits decide_repack computed; smoke = init with boundary options (incl. huge accepted chunk sizes: rabin size = min = 2^62 / 2^63, max up to usize::MAX, fixed-size up to usize::MAX; pack sizes / grow factors / limits 0, 1, 2^31, u32::MAX; tolerate percents; compression extremes; version 1 + options), in one run of three followed by 1..3 apply_config changes -> 2 backups -> check --read-data -> restore -> forget -> "
         "prune_plan/prune with limit options (0%, 5%, 99%, 100%, 101%, 150%, u64::MAX %, sizes 0/1/u64::MAX, unlimited, repack-all) -> check -> restore. "
         "Non-trivial = observation starts with `ok ` or is a refusal (`err:`); distinct by hash of (op, observation).")
 EXPLANATION = ("Theorems: apply changes only the named settings; no version downgrade; a refused change (and a refused init) leaves the stored configuration untouched and "
                "writes nothing; accepted configurations satisfy the chunker's well-formedness (hence, by C06, chunking terminates and is lossless and bounded), pack-size "
-               "and prune-limit arithmetic of the repaired code cannot overflow/divide by zero; witnesses for each repaired defect. Correspondence: real apply / "
-               "check_rabin_params / getters / pack_size / init+apply_config sequences equal the model's results; oracle: smoke runs never panic, restore equals the source.")
+               "and prune-limit arithmetic of the repaired code cannot overflow/divide by zero, and a percentage limit means what the option says (prune_limit_percent_meaning); witnesses for each repaired defect. Correspondence: real apply / "
+               "check_rabin_params / getters / pack_size / init+apply_config sequences / the limits computed inside decide_repack equal the model's results; oracle: smoke runs never panic, restore equals the source.")
 
 
 def nontrivial(op, obs):
